@@ -103,6 +103,66 @@ fn main() {
                 }
             }
         }
+        Some("fuzz-replay") => {
+            // fv fuzz-replay <target> <file> [property]: deterministic re-execution of a fuzzer artifact
+            let target = args.get(2).cloned().unwrap_or_default();
+            let path = args.get(3).cloned().unwrap_or_default();
+            let prop = args.get(4).cloned().unwrap_or_else(|| "C04".into());
+            let data = std::fs::read(&path).expect("read artifact");
+            let out = fv::fuzzing::run_target(&target, &data);
+            println!("profile={} target={target} bytes={} evals={} nontrivial={}", profile(), data.len(), out.evals, out.nontrivial);
+            for e in &out.infra {
+                eprintln!("INFRA: {e}");
+            }
+            if out.fails.is_empty() {
+                println!("REPLAY-PASS property={prop} target={target}");
+                std::process::exit(if out.infra.is_empty() { 0 } else { 2 });
+            }
+            for f in &out.fails {
+                println!("REPLAY-FAIL property={prop} signature={} :: {}", f.sig, f.msg);
+            }
+            println!("VIOLATION property={prop} replay={path}");
+            std::process::exit(1);
+        }
+        Some("gen-corpus") => {
+            // fv gen-corpus <dir>: deterministic seed inputs for the fuzz targets
+            use fv::framegen::Chooser;
+            let dir = args.get(2).cloned().unwrap_or_else(|| "/verif/corpus".into());
+            for t in fv::fuzzing::TARGETS {
+                std::fs::create_dir_all(format!("{dir}/{t}")).unwrap();
+            }
+            let mut seed = 1u64;
+            for i in 0..60 {
+                seed = seed.wrapping_mul(6364136223846793005).wrapping_add(1442695040888963407);
+                let mut rng = fv::pcm::Rng(seed);
+                let gs = fv::framegen::gen_stream(&mut rng, i % 12 == 0, 2, 40);
+                if gs.bytes.len() < 1500 {
+                    std::fs::write(format!("{dir}/dec_raw/gen{i:02}.flac"), &gs.bytes).unwrap();
+                    std::fs::write(format!("{dir}/streamreader/gen{i:02}.frames"), &gs.bytes[gs.first_frame..]).unwrap();
+                    std::fs::write(format!("{dir}/meta_raw/gen{i:02}.meta"), &gs.bytes[..gs.first_frame]).unwrap();
+                }
+                // structured targets: random choice bytes
+                let n = 40 + rng.below(200) as usize;
+                let bytes: Vec<u8> = (0..n).map(|_| rng.next() as u8).collect();
+                std::fs::write(format!("{dir}/dec_struct/r{i:02}"), &bytes).unwrap();
+                std::fs::write(format!("{dir}/frame_struct/r{i:02}"), &bytes).unwrap();
+            }
+            let specs = fv::engine::sample_strategy(&fv::cuegen::spec_strategy(20, 20), 7, 20);
+            for (i, s) in specs.iter().enumerate() {
+                std::fs::write(format!("{dir}/cue_text/gen{i:02}.cue"), s.render()).unwrap();
+            }
+            let lists = fv::engine::sample_strategy(&fv::metagen::rlist_strategy(), 9, 30);
+            for (i, l) in lists.iter().enumerate() {
+                let b = fv::refmeta::serialize(l);
+                if b.len() < 4000 {
+                    std::fs::write(format!("{dir}/meta_raw/list{i:02}.meta"), &b).unwrap();
+                }
+            }
+            std::fs::write(format!("{dir}/picture/t.png"), fv::props::c12::png_template()).unwrap();
+            std::fs::write(format!("{dir}/picture/t.jpg"), fv::props::c12::jpeg_template()).unwrap();
+            std::fs::write(format!("{dir}/picture/t.gif"), fv::props::c12::gif_template()).unwrap();
+            println!("corpus written to {dir}");
+        }
         Some("oracle-encode") => {
             fv::props::c18::oracle_loop();
         }
